@@ -41,12 +41,16 @@ U = 'src/utils/private.rs'
 A = 'src/anycache.rs'
 
 # ---- C01
-V('c01-insert-replaces', 'C01', 'C01.R1', (C, '''        let entry = shard.entry(key).or_insert(entry);
-        unsafe { entry.inner().extend_lifetime() }''', '''        shard.insert(key.clone(), entry);
+V('c01-insert-replaces', 'C01', 'C01.R1', (C, '''        let entry = shard.entry(key).or_insert_with(|| {
+            on_insert();
+            entry
+        });
+        unsafe { entry.inner().extend_lifetime() }''', '''        on_insert();
+        shard.insert(key.clone(), entry);
         let entry = shard.get(&key).unwrap();
         unsafe { entry.inner().extend_lifetime() }'''))
-V('c01-local-insert-replaces', 'C01', 'C01.R1', (L, '''        let entry = map.entry(key).or_insert(entry);''', '''        map.remove(&key);
-        let entry = map.entry(key).or_insert(entry);'''))
+V('c01-local-insert-replaces', 'C01', 'C01.R1', (L, '''        let entry = map.entry(key).or_insert_with(|| {''', '''        map.remove(&key);
+        let entry = map.entry(key).or_insert_with(|| {'''))
 V('c01-shared-evict', 'C01', 'C01.R1', (C, '''    fn clear(&mut self) {''', '''    #[allow(dead_code)]
     pub(crate) fn evict(&self, id: &str, type_id: TypeId) {
         let key = BorrowedKey::new_with(id, type_id);
@@ -77,11 +81,17 @@ V('c01-shard-mut-differs', 'C01', 'C01.R7', (C, '''    fn get_shard_mut(&mut sel
         let id = (hasher.finish() as usize) & (self.shards.len() - 1);'''))
 V('c01-return-own-entry', 'C01', 'C01.R2', (C, '''        let key = OwnedKey::new_with(entry.id().clone(), entry.type_id());
         let shard = &mut *self.get_shard(key.borrow()).0.write();
-        let entry = shard.entry(key).or_insert(entry);
+        let entry = shard.entry(key).or_insert_with(|| {
+            on_insert();
+            entry
+        });
         unsafe { entry.inner().extend_lifetime() }''', '''        let key = OwnedKey::new_with(entry.id().clone(), entry.type_id());
         let ptr = unsafe { entry.inner().extend_lifetime() };
         let shard = &mut *self.get_shard(key.borrow()).0.write();
-        shard.entry(key).or_insert(entry);
+        shard.entry(key).or_insert_with(|| {
+            on_insert();
+            entry
+        });
         ptr'''))
 V('c01-benign-helper', 'C01', 'silent', (C, '''    fn clear(&mut self) {
         for shard in &mut *self.shards {
@@ -120,18 +130,18 @@ V('c02-load-owned-caches', 'C02', 'C02.R1', (A, '''    fn _load_owned<T: Compoun
         let entry = self.load_owned_entry(id, Type::of::<T>())?;''', '''    fn _load_owned<T: Compound>(&self, id: &str) -> Result<T, Error> {
         let _ = self.load_entry(id, Type::of::<T>());
         let entry = self.load_owned_entry(id, Type::of::<T>())?;'''))
-V('c02-insert-before-check', 'C02', 'C02.R2', (A, '''        let entry = crate::asset::load_and_record(cache, id, typ, true)?;
+V('c02-insert-before-check', 'C02', 'C02.R2', (A, '''        let entry = entry?;
 
-        Ok(self.assets().insert(entry))''', '''        let entry = match crate::asset::load_and_record(cache, id.clone(), typ, true) {
+        // Only a value that is actually stored''', '''        let entry = match entry {
             Ok(e) => e,
             Err(err) => {
                 // remember the failure
-                self.assets().insert(CacheEntry::new(0u8, id, || false));
+                self.assets().insert(CacheEntry::new(0u8, id, || false), || ());
                 return Err(err);
             }
         };
 
-        Ok(self.assets().insert(entry))'''))
+        // Only a value that is actually stored'''))
 V('c02-benign-remove-match', 'C02', 'silent', (C, '''        self.take(id, type_id).is_some()''', '''        match self.take(id, type_id) {
             Some(_) => true,
             None => false,
@@ -452,14 +462,14 @@ V('c08-wait-even-if-send-failed', 'C08', 'C08.R4', (H, '''        if self
         ));
         self.answers.wait_for_answer(token);'''))
 V('c08-wait-for-any-token', 'C08', 'C08.R4', (H, '''|t| *t != Some(token));''', '''|t| t.is_none());'''))
-V('c08-load-under-shard-lock', 'C08', 'C08.R5', (A, '''        let entry = crate::asset::load_and_record(cache, id, typ, true)?;
+V('c08-load-under-shard-lock', 'C08', 'C08.R5', (A, '''        let entry = entry?;
 
-        Ok(self.assets().insert(entry))''', '''        let entry = crate::asset::load_and_record(cache, id, typ, true)?;
+        // Only a value that is actually stored''', '''        let entry = entry?;
         let _busy = BUSY.lock().unwrap_or_else(|e| e.into_inner());
-        let again = crate::asset::load_and_record(cache, entry.id().clone(), typ, false);
+        let again = crate::asset::load_and_record(cache, entry.id().clone(), typ);
         drop(again);
 
-        Ok(self.assets().insert(entry))'''), (A, '''pub(crate) trait RawCache: Sized {''', '''static BUSY: std::sync::Mutex<()> = std::sync::Mutex::new(());
+        // Only a value that is actually stored'''), (A, '''pub(crate) trait RawCache: Sized {''', '''static BUSY: std::sync::Mutex<()> = std::sync::Mutex::new(());
 
 pub(crate) trait RawCache: Sized {'''))
 V('c08-benign-visit-early-insert', 'C08', 'silent', (HD, '''        if sort_data.visited.contains(&key as &dyn Key) {
@@ -492,10 +502,11 @@ V('c09-graph-updated-on-failure', 'C09', 'C09.R3', (HD, '''                if le
                     self.insert(Dependency::Asset(key), new_deps, typ);
                 }''', '''                let new_deps = new_deps.unwrap_or_else(Dependencies::empty);
                 self.insert(Dependency::Asset(key), new_deps, typ);'''))
-V('c09-initial-load-swallows-panic', 'C09', 'C09.R4', ('src/asset.rs', '''    (typ.inner.load)(cache, id)
+V('c09-initial-load-swallows-panic', 'C09', 'C09.R4', ('src/asset.rs', '''    ((typ.inner.load)(cache, id), Default::default())
 }''', '''    let id2 = id.clone();
-    std::panic::catch_unwind(std::panic::AssertUnwindSafe(|| (typ.inner.load)(cache, id)))
-        .unwrap_or_else(|_| Err(Error::new(id2, "panicked".into())))
+    let res = std::panic::catch_unwind(std::panic::AssertUnwindSafe(|| (typ.inner.load)(cache, id)))
+        .unwrap_or_else(|_| Err(Error::new(id2, "panicked".into())));
+    (res, Default::default())
 }'''))
 V('c09-benign-guard-named', 'C09', 'silent', (HRc, '''        let _guard = CellGuard::replace(rec, None);
         f()''', '''        let restore_on_exit = CellGuard::replace(rec, None);
@@ -535,7 +546,7 @@ V('c14-owned-load-not-recorded', 'C14', 'C14.R4', (A, '''        #[cfg(feature =
             }
         }
 
-        crate::asset::load_and_record''', '''        crate::asset::load_and_record'''))
+        let (entry, _deps) = crate::asset::load_and_record''', '''        let (entry, _deps) = crate::asset::load_and_record'''))
 V('c14-always-nested-record', 'C14', 'C14.R4', ('src/asset.rs', '''    #[cfg(feature = "hot-reloading")]
     if typ.is_hot_reloaded() {
         if let Some(reloader) = cache.reloader() {''', '''    #[cfg(feature = "hot-reloading")]
@@ -601,7 +612,7 @@ V('c05-anysource-bypass', 'C05', 'C05.R1', (A, '''    fn read(&self, id: &str, e
     }
 
     fn get_cached_entry_inner'''))
-V('c05-register-empty-deps', 'C05', 'C05.R2', ('src/asset.rs', '''                reloader.add_asset(id, deps, typ);''', '''                drop(deps);
+V('c05-register-empty-deps', 'C05', 'C05.R2', (A, '''                reloader.add_asset(id, deps, typ);''', '''                drop(deps);
                 reloader.add_asset(id, crate::hot_reloading::Dependencies::empty(), typ);'''))
 V('c05-no-rev', 'C05', 'C05.R3', (HD, '''        self.0.into_iter().rev()''', '''        self.0.into_iter()'''))
 V('c05-preorder-push', 'C05', 'C05.R3', (HD, '''        for rdep in node.rdeps.iter() {
@@ -659,7 +670,7 @@ V('c10-reintroduce-F5-clear', 'C10', 'C10.R5', (HP, '''        // Nothing is cac
 V('c10-remove-handler-noop', 'C10', 'C10.R5', (HD, '''        if let Some(node) = self.0.get_mut(&key as &dyn Key) {
             node.typ = None;
         }''', '''        let _ = self.0.get(&key as &dyn Key);'''))
-V('c10-reintroduce-F7', 'C10', 'C10.R6', (A, '''        crate::asset::load_and_record(self._as_any_cache(), id, typ, false)''', '''        crate::asset::load_and_record(self._as_any_cache(), id, typ, true)'''))
+V('c10-reintroduce-F7', 'C10', 'C10.R3', (A, '''            reloader.add_owned_asset(id, deps, typ);''', '''            reloader.add_asset(id, deps, typ);'''))
 V('c10-owned-registers-some', 'C10', 'C10.R6', (HD, '''            self.insert_node(asset_key, deps, None);''', '''            self.insert_node(asset_key, deps, self.0.values().find_map(|n| n.typ));'''))
 V('c10-get-or-insert-registers', 'C10', 'C10.R3', (A, '''        let entry = CacheEntry::new(asset, id, || self._has_reloader());
 
@@ -1179,3 +1190,76 @@ V('c03-default-value-swallows-error', 'C03', 'C03.R6', (AS, '''    fn default_va
     }''', '''    fn default_value(id: &SharedString, error: BoxedError) -> Result<Self, BoxedError> {
         Err(format!("could not load {id}: {error}").into())
     }'''))
+
+
+# ---- F8 area: registration through the on_insert callback of AssetMap::insert
+V('c10-reintroduce-F8', 'C10', 'C10.R3', (A, """        let handle = self.assets().insert(entry, || {
+            #[cfg(feature = "hot-reloading")]
+            if let (Some(deps), Some(reloader)) = (_deps, self.reloader()) {
+                reloader.add_asset(id, deps, typ);
+            }
+        });""", """        #[cfg(feature = "hot-reloading")]
+        if let (Some(deps), Some(reloader)) = (_deps, self.reloader()) {
+            reloader.add_asset(id, deps, typ);
+        }
+        let handle = self.assets().insert(entry, || ());"""))
+V('c10-on-insert-always-called', 'C10', 'C10.R8', (C, """        let entry = shard.entry(key).or_insert_with(|| {
+            on_insert();
+            entry
+        });""", """        on_insert();
+        let entry = shard.entry(key).or_insert(entry);"""))
+V('c05-on-insert-never-called', 'C05', 'C10.R8', (C, """        let entry = shard.entry(key).or_insert_with(|| {
+            on_insert();
+            entry
+        });""", """        let _ = on_insert;
+        let entry = shard.entry(key).or_insert(entry);"""))
+V('c05-on-insert-only-for-short-ids', 'C05', 'C10.R8', (C, """        let entry = shard.entry(key).or_insert_with(|| {
+            on_insert();
+            entry
+        });""", """        let entry = shard.entry(key).or_insert_with(|| {
+            if entry.id().len() < 64 {
+                on_insert();
+            }
+            entry
+        });"""))
+V('c08-callback-takes-shard-lock', 'C08', 'C08.R5', (A, """            if let (Some(deps), Some(reloader)) = (_deps, self.reloader()) {
+                reloader.add_asset(id, deps, typ);""", """            if let (Some(deps), Some(reloader)) = (_deps, self.reloader()) {
+                if !self.assets().contains_key(&id, typ.type_id) {
+                    log::trace!("registering {id}");
+                }
+                reloader.add_asset(id, deps, typ);"""))
+V('c02-insert-stores-other-entry', 'C02', 'C10.R8', (L, """        let entry = map.entry(key).or_insert_with(|| {
+            on_insert();
+            entry
+        });""", """        let entry = map.entry(key).or_insert_with(|| {
+            on_insert();
+            CacheEntry::new(0u8, entry.id().clone(), || false)
+        });"""))
+V('c10-benign-insert-match-form', 'C10', 'silent', (C, """        let entry = shard.entry(key).or_insert_with(|| {
+            on_insert();
+            entry
+        });""", """        let entry = match shard.entry(key) {
+            std::collections::hash_map::Entry::Occupied(e) => e.into_mut(),
+            std::collections::hash_map::Entry::Vacant(e) => {
+                on_insert();
+                e.insert(entry)
+            }
+        };"""), (L, """        let entry = map.entry(key).or_insert_with(|| {
+            on_insert();
+            entry
+        });""", """        let entry = match map.entry(key) {
+            std::collections::hash_map::Entry::Occupied(e) => e.into_mut(),
+            std::collections::hash_map::Entry::Vacant(e) => {
+                on_insert();
+                e.insert(entry)
+            }
+        };"""))
+V('c10-benign-get_or_insert-static', 'C10', 'silent', (A, """        let entry = CacheEntry::new(asset, id, || self._has_reloader());""", """        // values stored with get_or_insert are never reloaded, they need no lock
+        let entry = CacheEntry::new(asset, id, || false);"""))
+V('c10-benign-owned-registers-failed-load', 'C10', 'silent', (A, """        if let (Ok(_), Some(deps), Some(reloader)) = (&entry, _deps, self.reloader()) {""", """        if let (Some(deps), Some(reloader)) = (_deps, self.reloader()) {"""))
+V('c05-unrecorded-load-for-long-ids', 'C05', 'C05.R2', ('src/asset.rs', """    if typ.is_hot_reloaded() {
+        if let Some(reloader) = cache.reloader() {
+            let (entry, deps) =""", """    if typ.is_hot_reloaded() && id.len() < 64 {
+        if let Some(reloader) = cache.reloader() {
+            let (entry, deps) ="""))
+V('c10-register-type-swapped', 'C05', 'C05.R2', (A, """                reloader.add_asset(id, deps, typ);""", """                reloader.add_asset(id, deps, Type::of::<crate::SharedString>());"""))
